@@ -53,6 +53,27 @@ def _shapes():
         t += [x]
         return t.get_html_string()
 
+    # one-shot iterables: extend() and += accept any iterable of children
+    def ext_iter(x):
+        t = tags.div()
+        t.extend(iter([tags.b(), x]))
+        return t.get_html_string()
+
+    def ext_gen(x):
+        t = tags.span("k")
+        t.extend(y for y in [x])
+        return t.get_html_string()
+
+    def iadd_gen(x):
+        t = TagList(tags.div())
+        t += (y for y in ["a", [x]])
+        return t.get_html_string()
+
+    def lext_map(x):
+        t = TagList()
+        t.extend(map(lambda y: y, [x, tags.i()]))
+        return t.get_html_string()
+
     return {
         "only_block": lambda x: tags.div(x).get_html_string(),
         "only_inline": lambda x: tags.span(x).get_html_string(),
@@ -70,6 +91,7 @@ def _shapes():
         "in_taglist_arg": lambda x: tags.div(TagList("q", TagList(x))).get_html_string(),
         "deep": lambda x: tags.div(tags.ul(tags.li(tags.a(tags.b(x), "t")))).get_html_string(),
         "append": ap, "append_many": ap2, "extend": ext, "insert0": ins, "insert_mid": ins_mid, "iadd": iadd,
+        "extend_iter": ext_iter, "extend_gen": ext_gen, "iadd_gen": iadd_gen, "list_extend_map": lext_map,
         "radd": lambda x: ([x] + TagList(tags.span())).get_html_string(),
         "add": lambda x: (TagList(tags.div()) + [x]).get_html_string(),
         "str_view": lambda x: str(tags.div(tags.div(), x)),
@@ -98,6 +120,8 @@ def segment(render, x_marker, x_real):
     leaf of the same type to learn the context, once with the real leaf."""
     # str(): a changed library may hand back a str-like object; what matters is the text it denotes
     m = str(render(x_marker))
+    if m.count(MARK) == 0:
+        return LOST
     if m.count(MARK) != 1:
         return None
     pre, suf = m.split(MARK)
@@ -107,9 +131,24 @@ def segment(render, x_marker, x_real):
     return out[len(pre): len(out) - len(suf)]
 
 
+LOST = object()      # the marker leaf was not emitted at all
+
+
+class Label(str):
+    """a plain string whose type is a proper subclass of str (a (str, Enum) member, numpy.str_, ...)"""
+
+
 def seg_rec(p, ctx, pieces, seg, gen):
     return {"k": "seg", "p": p, "ctx": ctx, "pieces": [{"m": m, "t": cps(t)} for m, t in pieces],
             "seg": cps(seg), "gen": gen}
+
+
+def seg_or_flag(p, ctx, pieces, seg, gen):
+    if seg is LOST:
+        return flag(p, "EveryLeafIsEmitted", True, False, gen)
+    if seg is None:
+        return flag("DRIFT", "context", True, False, gen)
+    return seg_rec(p, ctx, pieces, seg, gen)
 
 
 def flag(p, name, want, got, gen):
@@ -201,6 +240,10 @@ class C02(Prop):
         for s in gamma.HOSTILE:
             for nm in names:
                 gens.append({"kind": "child", "s": cps(s), "shape": nm})
+        # plain strings whose type is a proper subclass of str
+        for j, s in enumerate(gamma.HOSTILE):
+            for nm in (names if j < 6 else [names[j % len(names)], "only_block", "only_inline"]):
+                gens.append({"kind": "child", "s": cps(s), "shape": nm, "sub": True})
         # history dependence: the same string escaped as an attribute value first, then as text
         for j, s in enumerate(gamma.HOSTILE + ["Tom & \"Jerry\"", "a<b 'c'", "x & y\nz"]):
             gens.append({"kind": "fn", "s": cps("p" + str(j) + s), "prime": True})
@@ -262,10 +305,11 @@ class C02(Prop):
             return recs
         if k == "child":
             s = uncps(g["s"])
-            seg = segment(shapes()[g["shape"]], MARK, s)
-            if seg is None:
-                return flag("DRIFT", "context", True, False, g)
-            return seg_rec("C02", "text", [("esc", s)], seg, g)
+            if g.get("sub"):
+                seg = segment(shapes()[g["shape"]], Label(MARK), Label(s))
+            else:
+                seg = segment(shapes()[g["shape"]], MARK, s)
+            return seg_or_flag("C02", "text", [("esc", s)], seg, g)
         if k == "num":
             n = eval(g["n"], {"inf": float("inf"), "HostileInt": HostileInt, "HostileFloat": HostileFloat})
             sh = shapes()[g["shape"]]
@@ -295,9 +339,7 @@ class C02(Prop):
             else:
                 r = lambda x: f(H.tags.em("k"), x, **kw).get_html_string()
             seg = segment(r, MARK, s)
-            if seg is None:
-                return flag("DRIFT", "context", True, False, g)
-            return seg_rec("C02", "text", [("esc", s)], seg, g)
+            return seg_or_flag("C02", "text", [("esc", s)], seg, g)
         raise ValueError(k)
 
 
@@ -379,6 +421,7 @@ class C04(Prop):
         names = [n for n in shapes() if n not in ("tagify_str",)]
         payloads = list(gamma.HOSTILE) + ["<b>bold</b> &amp; <i>it</i>\n<p>x</p>", "a < b && c > d", "\r\n\t <x y='z'>"]
         for p in payloads:
+            gens.append({"kind": "html_child", "s": cps(p), "shape": "tagify_str"})    # tagify() handing back a bare HTML()
             for nm in names:
                 gens.append({"kind": "html_child", "s": cps(p), "shape": nm})
                 gens.append({"kind": "repr_child", "s": cps(p), "shape": nm})
@@ -410,7 +453,7 @@ class C04(Prop):
             e = self._rand_expr(rnd, k)
             ev_ok = True
             gens.append({"kind": "expr", "e": e,
-                         "payloads": [cps(rnd.choice(payloads) if rnd.random() < 0.7 else gamma.rand_text(rnd, 10))
+                         "payloads": [cps(rnd.choice(payloads + ["", ""]) if rnd.random() < 0.7 else gamma.rand_text(rnd, 10))
                                       for _ in range(k)], "aug": rnd.getrandbits(16)})
         return gens
 
@@ -434,25 +477,20 @@ class C04(Prop):
             adj = f(H.HTML(a), b, _add_ws=False) if g["order"] == 0 else f(a, H.HTML(b), _add_ws=False)
             recs = []
             for sg in (seg, seg2):
-                if sg is not None:
-                    recs.append(seg_rec("C04", "text", pieces, sg, g))
+                recs.append(seg_or_flag("C04", "text", pieces, sg, g))
             recs.append(flag("C04", "SameAsAdjacentChildren", True, str(f(res, _add_ws=False).get_html_string()) == str(adj.get_html_string()), g))
             return recs
         if k == "html_child":
             sh = shapes()[g["shape"]]
             seg = segment(sh, H.HTML(MARK), H.HTML(s))
-            if seg is None:
-                return flag("DRIFT", "context", True, False, g)
-            return seg_rec("C04", "text", [("raw", s)], seg, g)
+            return seg_or_flag("C04", "text", [("raw", s)], seg, g)
         if k == "repr_child":
             sh = shapes()[g["shape"]]
             try:
                 seg = segment(sh, gamma.ReprObj(MARK), gamma.ReprObj(s))
             except TypeError:
                 return None
-            if seg is None:
-                return flag("DRIFT", "context", True, False, g)
-            return seg_rec("C04", "text", [("raw", s)], seg, g)
+            return seg_or_flag("C04", "text", [("raw", s)], seg, g)
         if k == "rawtext":
             Tag = H.Tag
             form = g["form"]
@@ -470,9 +508,7 @@ class C04(Prop):
                     return H.tags.div(Tag(g["tag"], x)).get_html_string(2, "\r\n")
                 return Tag(g["tag"], H.MetadataNode(), x, H.MetadataNode()).get_html_string()
             seg = segment(r, MARK, s)
-            if seg is None:
-                return flag("DRIFT", "context", True, False, g)
-            return seg_rec("C04", "text", [("raw", s)], seg, g)
+            return seg_or_flag("C04", "text", [("raw", s)], seg, g)
         if k == "html_attr":
             way = g["way"]
 
@@ -491,9 +527,7 @@ class C04(Prop):
                     t = H.tags.div(b="1", a=x, c="2")
                 return t.get_html_string()
             seg = segment(r, H.HTML(MARK), H.HTML(s))
-            if seg is None:
-                return flag("DRIFT", "context", True, False, g)
-            return seg_rec("C04", "attr", [("raw", s)], seg, g)
+            return seg_or_flag("C04", "attr", [("raw", s)], seg, g)
         if k == "expr":
             payloads = [uncps(p) for p in g["payloads"]]
             e = g["e"]
